@@ -132,7 +132,9 @@ def gen_config(rng, kind="sim", allow_face=True):
     nx, ny, nz = [(rng.choice([1, 1, 2, 2, 3]) if small else rng.randint(1, 6)) for _ in range(3)]
     boundary = rng.choice(["periodic", "periodic", "open", "shear"])
     gravity = rng.choice(["none", "tree"])
-    collision = rng.choice(["none", "tree", "linetree", "tree"])
+    collision = rng.choice(["none", "tree", "linetree", "tree", "direct", "line"])
+    if kind != "sim" and collision in ("direct", "line"):
+        collision = "tree"        # the fresh / boundary / update-walk cases are about a simulation that has a tree
     if kind == "sim" and gravity == "none" and collision == "none" and rng.chance(0.8):
         collision = "tree"
     resolve = rng.choice(["hardsphere", "merge"])
@@ -547,6 +549,10 @@ def sim_dimensions(cfg):
     d.append("tree_use:" + ("both" if g and c else "gravity_only" if g else "collisions_only" if c else "no_tree"))
     if cfg["collision"] != "none":
         d.append("resolver:" + cfg["resolve"])
+        d.append("collision_search:" + cfg["collision"])
+        if g and not c and cfg["resolve"] in ("merge", "callback"):
+            # any tree makes reb_simulation_remove_particle flag instead of remove: the search need not be a tree search
+            d.append("conj:tree_gravity x %s search x removing resolver" % cfg["collision"])
     if cfg.get("dtsign", 1.0) < 0:
         d.append("time:dt<0")
     na = cfg.get("n_active", -1)
@@ -721,6 +727,15 @@ def run_sim(cfg, out, model_budget):
                 out.viol.append((k, "after step %d particle(s) %s flagged for removal (y=NaN) are still in the particle array (N=%d)"
                                  % (step, flagged[:5], len(after)), dict(cfg=cfg, step=step)))
             out.inc("f17_observed")
+        # every entry of the array counts (a NaN placeholder left behind would count its mass twice)
+        if cfg["collision"] != "none" and cfg["resolve"] in ("merge", "hardsphere") and cfg["boundary"] in ("periodic", "shear") \
+                and not any(op[0] == step for op in cfg.get("userops", [])):
+            m0 = math.fsum(p["m"] for p in before.values())
+            m1 = math.fsum(p["m"] for p in after)
+            if not abs(m1 - m0) <= 1e-12 * max(abs(m0), 1e-300):
+                out.viol.append(("mass-not-conserved", "step %d: total mass of the particle array changed from %r to %r (N %d -> %d) under %s "
+                                 "boundaries with resolver %s" % (step, m0, m1, len(before), len(after), cfg["boundary"], cfg["resolve"]),
+                                 dict(cfg=cfg, step=step)))
         live = [p for p in after if p["y"] == p["y"]]
         merging_cfg = cfg["collision"] != "none" and cfg["resolve"] in ("merge", "callback")
         hs = [p["h"] for p in after]
@@ -1523,6 +1538,8 @@ REQUIRED_DIMENSIONS = [
     "boundary_direct:open", "boundary_direct:periodic", "boundary_direct:shear",
     "boundary_direct:open+tree", "boundary_direct:periodic+tree", "boundary_direct:shear+tree",
     "resolver:hardsphere", "resolver:merge", "resolver:callback",
+    "collision_search:tree", "collision_search:linetree", "collision_search:direct", "collision_search:line",
+    "conj:tree_gravity x direct search x removing resolver", "conj:tree_gravity x line search x removing resolver",
     "roles:N_active<N", "roles:testparticle_type0", "roles:testparticle_type1", "roles:massless_test_particles",
     "roles:massive_test_particles", "roles:zero_mass_active",
     "time:dt<0", "time:shear_t<0", "time:shear_t>=0", "time:shear_|t|_huge",
